@@ -132,6 +132,16 @@ def _where(m: "Model", n: int) -> str:
     return "&".join(parts) or "top"
 
 
+def _where_state(st) -> str:
+    """The situation a call started in, by what it can observe: which of destination / start marker / end marker exist.  Crash
+    points are named by (effect, situation) - a description of the history that fails, independent of where in the code the
+    effect is written."""
+    dst, start, end = st[0], st[1], st[2]
+    if not dst:
+        return "!dst"
+    return "dst&" + ("start" if start else "!start") + "&" + ("end" if end else "!end")
+
+
 class Run:
     def __init__(self, state, crash_points, returns, raises, violations):
         self.state, self.crash_points, self.returns, self.raises, self.violations = state, crash_points, returns, raises, violations
@@ -181,7 +191,7 @@ def execute(m: Model, start_state) -> Run:
         nxt_states = [st]
         if k and not k[0].startswith("test-"):
             kind = k[0]
-            cp = f"{kind}@{_where(m, n)}"
+            cp = f"{kind}@{_where_state(start_state)}"
             if kind in ("rmtree", "copy") and st[1] and st[2] and st[3] == "complete":
                 violations.append(("I2", f"{kind} is executed on a folder that carries both markers (a completed automatic copy "
                                          f"is {'deleted' if kind == 'rmtree' else 'redone'}) [{cp}; from {_fmt(start_state)}]"))
@@ -201,6 +211,9 @@ def execute(m: Model, start_state) -> Run:
                 nxt_states = [ns]
                 crash_points.append((f"after:{cp}", ns))
             elif kind == "create-end":
+                if "copy" not in eff or data != "complete":
+                    violations.append(("I4", f"the end marker is written on a path on which this call did not complete a copy "
+                                             f"[{cp}; from {_fmt(start_state)}]"))
                 ns = (dst, start, True, data, origin)
                 nxt_states = [ns]
                 crash_points.append((f"after:{cp}", ns))
@@ -209,6 +222,11 @@ def execute(m: Model, start_state) -> Run:
                 nxt_states = [ns]
                 crash_points.append((f"after:{cp}", ns))
             elif kind == "copy":
+                if not start:
+                    violations.append(("I4", f"the copy begins on a path on which no start marker exists [{cp}; from "
+                                             f"{_fmt(start_state)}]"))
+                if end:
+                    violations.append(("I4", f"the copy runs while an end marker exists [{cp}; from {_fmt(start_state)}]"))
                 mid = (dst, start, end, "partial", origin if origin != "none" else "auto")
                 ns = (dst, start, end, "complete", origin if origin != "none" else "auto")
                 crash_points.append((f"inside:{cp}", mid))
@@ -383,16 +401,11 @@ def run(prog: Program, rep: Report, tier: str):
         rep.decide(not bad3, "I3.truthful-result", fi, "flags", "was_copied / was_deleted match the effects of the run",
                    "; ".join(sorted(set(bad3))[:2]), clause="C20.I3")
         # ---- I4 marker order ---------------------------------------------------------------------------------------------
-        cfg = m.fa.cfg
-        starts = {n for n, k in m.kind.items() if k[0] == "create-start"}
-        ends = {n for n, k in m.kind.items() if k[0] == "create-end"}
-        copies = {n for n, k in m.kind.items() if k[0] == "copy"}
-        ok = all(cfg.must_pass(starts, src=cfg.entry, dst=c) for c in copies) and all(
-            not cfg.reachable(cfg.entry, e, avoid=copies) for e in ends) and not any(
-            cfg.reachable(e, c) for e in ends for c in copies)
-        rep.decide(ok, "I4.marker-order", fi, "start<copy<end", "start marker, then copy, then end marker on every path",
-                   "the markers do not bracket the copy on every path (an end marker can exist although the copy did not finish, or "
-                   "a copy can begin without a start marker)", clause="C20.I4")
+        v4 = sorted({msg for r in runs.values() for k, msg in r.violations if k == "I4"})
+        has = {k[0] for k in m.kind.values()}
+        rep.decide((not v4) if {"create-start", "create-end", "copy"} <= has else False, "I4.marker-order", fi, "start<copy<end",
+                   "on every feasible run (flags and persistent state followed): start marker, then copy, then end marker",
+                   "; ".join(v4[:2]) or "the function does not create both markers around a copy", clause="C20.I4")
         summaries[fname] = {(_fmt(s)): sorted({(eff, facts.get("was_copied"), facts.get("was_deleted")) for _, facts, eff, _ in r.returns})
                             for s, r in runs.items()}
         rep.floor(f"persistent states in the crash closure of {fname}", len(runs), 5)
